@@ -31,7 +31,7 @@ NOT_BUILT = "not claimed yet: the contracts for this property are not finished i
 
 prop(
     "C19",
-    ["contracts.c19_mapping"],
+    ["contracts.c19_mapping", "contracts.c05_pipeline"],
     "other",
     "contract-based deductive verification of the inductive step of a structural induction over configuration trees: translate_hierarchy is proved per node shape (mappings by key set, lists by length, width <= 3; children are arbitrary symbolic subtrees, so depth is unbounded) against its own interface contract assumed at the recursive call sites; construct and load_name are proved against an abstract import system; whole trees of larger width by a BOUNDED stand-in",
     "proved per node: every child translated exactly once (mappings in key order at where.key, lists last-to-first at where[index]), plain data unchanged, a __type__ mapping constructed exactly once after all its children from the translated items + extra keywords, __args__ positional / rest keyword, name resolution through import or the attribute chain, a child's located error propagates unchanged (innermost location), an unlocated or foreign error gets exactly this node's location; bounded: whole random trees against an independent evaluator",
@@ -58,6 +58,23 @@ prop(
              "hypothesis: constructors are arbitrary callables with arbitrary outcomes; nested elements of a bind obey the interface contract of >> (induction hypothesis)"],
     explanation="step cases proved by VCs per shape; @service transparency is a known finding",
     design_ref="5/C04",
+)
+
+
+prop(
+    "C05",
+    ["contracts.c05_pipeline", "contracts.c04_partial", "contracts.c19_mapping"],
+    "other",
+    "contract-based deductive verification of the three links between a YAML pipeline section and the chain: yaml_constructor.factory_constructor (node kind -> factory call, deep=eager handed on), PipelineTranslator.translate_hierarchy (proved per pipeline shape: lengths 1..3 over every assignment of template / legacy elements, against the interface contracts of >> (C04) and of translation (C19)), load_pipeline; the end-to-end run through real PyYAML is a BOUNDED stand-in",
+    "proved: a mapping / sequence / bare tag becomes factory(**items) / factory(*items) / factory() with exactly the loader's data; the pipeline is walked last to first, the last element constructed without target, every earlier element bound to the object built for the next one (>> for templates, target= for legacy mappings), each exactly once, results in configuration order; any element's failure propagates unchanged; non-pipeline structures are delegated with the same location and keywords; bounded: real YAML text end to end",
+    "trusted: pyvc's Python semantics; PyYAML's construct_mapping/construct_sequence and tag dispatch (assumed contract); pipelines longer than 3 only by the bounded stand-in; constructors return objects (not None)",
+    trusted=["assumed: PyYAML calls the registered constructor once per tagged node with (loader, node); construct_mapping/construct_sequence return the node's nested data",
+             "hypothesis: constructors / factories return an object, never None (a None result would make the walk treat the next element as the last one)",
+             "NOT proved: pipelines longer than 3 elements (the reverse walk is unrolled per shape); covered only by the bounded stand-in",
+             "BOUNDED (not proved): real YAML documents through real PyYAML against the configured chain, see coverage.bounded"],
+    explanation="links proved by VCs per shape; YAML end to end bounded",
+    design_ref="5/C05",
+    bounded="bounded.c05_yaml",
 )
 
 NOT_APPLICABLE = {pid: NOT_BUILT for pid in ["C%02d" % i for i in range(1, 20)]}
